@@ -385,21 +385,23 @@ def _standard_prove(res, prop_file, gen_targets=None, extra=()):
                 res.obligation('translate:' + tgt, True, kind='translation')
             except Exception as e:  # fail closed
                 res.obligation('translate:' + tgt, False, detail='%s: %s' % (type(e).__name__, e), kind='translation')
-    info = compile_props(prop_file)
-    if extra and info['ok']:
+    files = [prop_file] if isinstance(prop_file, str) else list(prop_file)
+    info = None
+    for pf in files:
+        info = compile_props(pf)
+        res.theorems += info['theorems']
+        res.assumptions.update(info['assumptions'])
+        if info['ok']:
+            for t in info['theorems']:
+                res.obligation('theorem:' + t, True)
+        else:
+            m = re.search(r'File "([^"]+)", line (\d+)', info['output'])
+            where = '%s:%s' % (m.group(1), m.group(2)) if m else pf
+            for t in info['theorems']:
+                res.obligation('theorem:' + t, False, detail='build failed at %s\n%s' % (where, info['output'][-2500:]))
+    if extra:
         ok2, out2 = make(list(extra))
         res.obligation('build:' + ','.join(extra), ok2, detail=out2[-2500:], kind='build')
-    res.theorems = info['theorems']
-    res.assumptions = info['assumptions']
-    if info['ok']:
-        for t in info['theorems']:
-            res.obligation('theorem:' + t, True)
-    else:
-        # find the failing file / theorem from the make output
-        m = re.search(r'File "([^"]+)", line (\d+)', info['output'])
-        where = '%s:%s' % (m.group(1), m.group(2)) if m else prop_file
-        for t in info['theorems']:
-            res.obligation('theorem:' + t, False, detail='build failed at %s\n%s' % (where, info['output'][-2500:]))
     return info
 
 
